@@ -136,10 +136,11 @@ class World:
     """Objects of a world term, built on demand and memoised (so that two
     references to ``("cref", 3)`` are the *same* Python object)."""
 
-    def __init__(self, term):
+    def __init__(self, term, unshare_specs=False):
         self.term = term
         self.cache = {}
         self.order = []  # (kind, idx) in build order
+        self.unshare_specs = unshare_specs  # expand ("sref", n) into separate copies
 
     def has(self, kind, idx):
         return (kind, idx) in self.cache
@@ -188,7 +189,19 @@ class World:
         constant situation) and ``("ty", name)`` for a Python type."""
         if isinstance(t, tuple):
             if t[0] == "sref":
+                if self.unshare_specs:
+                    return self.spec(self.term["specs"][t[1]])
                 return self.get("specs", t[1])
+            if t[0] == "yaml_of":
+                # YAML text of {"rules": specs[n]}; shared sub-structures become
+                # anchors / aliases, exactly what a hand-written schema file with
+                # `&name` / `*name` gives back from ruamel's safe loader
+                import io
+                from ruamel.yaml import YAML
+
+                buf = io.StringIO()
+                YAML(typ="safe").dump({"rules": self.get("specs", t[1])}, buf)
+                return buf.getvalue()
             if t[0] == "ty":
                 return TYPES[t[1]]
             if t[0] == "tup":
